@@ -7,7 +7,7 @@ From ChiaV.Base Require Import Bytes.
 From ChiaV.Clvm Require Import Sexp TreeHash.
 From ChiaV.Gen Require Import ChainConsts.
 From ChiaV.Cond Require Import Model.
-From ChiaV.Chain Require Import Backref Rom Generator GeneratorSpec Trusted TrustedSpec TrustedProofs.
+From ChiaV.Chain Require Import Backref Rom Generator GeneratorSpec Trusted TrustedSpec TrustedProofs TrustedRebuildProofs.
 Open Scope N_scope.
 
 (* For every generator full validation accepts (within the block cost limit): additions_and_removals succeeds;
@@ -91,9 +91,88 @@ Theorem C09_example :
     map snd adds = [Some (repeat x33 32)].
 Proof. exact trusted_example. Qed.
 
-(* C09_rebuild_partial / C09_spend_bundle_additions_partial / C09_coin_spends_with_conditions_partial:
-   the clauses "solution_generator of the recovered coin spends yields a generator with the same conditions",
-   "SpendBundle::additions lists the same created coins" and the agreement of
-   get_coinspends_with_conditions_for_trusted_block are NOT proved: the first two need serialize/deserialize
-   round-trip lemmas for Clvm/Sexp.v + Chain/Backref.v and a mirror of solution_generator (unit of C08).  They are
-   validated by execution only (streams gen.trusted, gen.sbadd and the implementation-level oracle gen.oracle09). *)
+(* Rebuild: for every accepted generator, feed the recovered coin spends to solution_generator in REVERSE order
+   (build_generator conses every spend onto the front of the list, see C09_build_generator_reverses): if every puzzle
+   reveal and solution serializes within node_to_bytes' 2 MB limit (otherwise Program::from_clvm has replaced it by
+   the nil program), build_generator succeeds with the accepted spend tuples in their order, spend-level extras
+   dropped; and whenever solution_generator returns a program (the whole generator is within 2 MB), full validation
+   of that program under the same flags, with no block references and ANY cost limit, either runs out of cost or
+   accepts with the same summary up to costs: `neutral` = equal spends in order with all their conditions, created
+   coins and hints, signatures, locks and flags, per-spend and total condition cost, reserve fee, absolute locks,
+   removal/addition amounts (hence fee), unsafe signatures and the (key, message) pairs.  What may differ: total cost
+   (byte/interned cost of the new serialization, generator execution cost = 20), and the spend-level extras. *)
+Theorem C09_rebuild : forall run valid_key sig_ok H K, run_exact_hyp run -> run_quote_hyp run ->
+  forall program refs max_cost gf b spends pairs,
+    run_block_generator2 run valid_key sig_ok H K program refs max_cost gf = Ok (b, spends, pairs) ->
+    max_cost <= MAX_BLOCK_COST_CLVM ->
+    exists out iter cs,
+      native_generator_output run program refs max_cost gf = Ok out /\ first out = Ok iter /\
+      get_coinspends_for_trusted_block run H program refs gf = Ok cs /\
+      (Forall fits_tuple (spend_tuples iter) ->
+       build_generator (rev cs) = Some (rebuilt_generator iter) /\
+       forall program' max_cost',
+         solution_generator (rev cs) = Some program' ->
+         match run_block_generator2 run valid_key sig_ok H K program' [] max_cost' gf return Prop with
+         | Ok s' => neutral s' = neutral (b, spends, pairs)
+         | Err e => e = CostExceeded
+         end).
+Proof. exact rebuild_correct. Qed.
+
+(* build_generator lists the spends in reverse order of its input *)
+Theorem C09_build_generator_reverses : forall l items,
+  Forall2 (fun c it => spend_item c = Some it) l items ->
+  forall acc, prepend_spends l acc = Some (fold_right Pair acc (rev items)).
+Proof. exact prepend_in_order. Qed.
+
+(* C09_rebuild_in_order_partial: feeding the coin spends IN ORDER gives (by C09_build_generator_reverses) the generator
+   whose spend list is reversed; that full validation accepts it with the reversed spends and otherwise equal
+   aggregates is NOT proved here: it needs the order invariance of the block path (property C06; unit bundle has it
+   for the mempool path and, through C08_agree, for its own block-path mirror Bundle/BlockPath.v, which differs from
+   Chain/Generator.v in result type, execution-cost bookkeeping and the plain parser).  Missing step: a bridge lemma
+   Chain.Generator.run_block_generator2 = Bundle.BlockPath.run_block_generator2 on plain, reference-free programs. *)
+
+(* SpendBundle::additions on the recovered coin spends of an accepted block, under NO_UNKNOWN_CONDS (a bundle valid
+   in mempool mode): it lists exactly the created coins of the validated spends, in order, or runs out of its own
+   (more conservative) cost budget.  Without NO_UNKNOWN_CONDS the helper fails on a condition whose operator is a
+   pair, which consensus-mode validation ignores as unknown (observation F-C09-3 in notes/gen.md). *)
+Theorem C09_spend_bundle_additions : forall run valid_key sig_ok H K, run_exact_hyp run ->
+  forall program refs max_cost gf b spends pairs,
+    run_block_generator2 run valid_key sig_ok H K program refs max_cost gf = Ok (b, spends, pairs) ->
+    max_cost <= MAX_BLOCK_COST_CLVM ->
+    f_no_unknown (g_cond gf) = true ->
+    exists out iter cs,
+      native_generator_output run program refs max_cost gf = Ok out /\ first out = Ok iter /\
+      get_coinspends_for_trusted_block run H program refs gf = Ok cs /\
+      (Forall fits_tuple (spend_tuples iter) ->
+       match spend_bundle_additions run H cs return Prop with
+       | Ok coins => coins = map fst (concat (map expected_additions spends))
+       | Err e => e = CostExceeded
+       end).
+Proof. exact sbadd_correct. Qed.
+
+(* get_coinspends_with_conditions_for_trusted_block: one entry per validated spend, in order: the same coin spend as
+   get_coinspends_for_trusted_block and the helper's condition view (csc_conditions) of the puzzle's output *)
+Theorem C09_coin_spends_with_conditions : forall run valid_key sig_ok H K, run_exact_hyp run ->
+  forall program refs max_cost gf b spends pairs,
+    run_block_generator2 run valid_key sig_ok H K program refs max_cost gf = Ok (b, spends, pairs) ->
+    max_cost <= MAX_BLOCK_COST_CLVM ->
+    exists out iter,
+      native_generator_output run program refs max_cost gf = Ok out /\ first out = Ok iter /\
+      get_coinspends_with_conditions_for_trusted_block run H program refs gf =
+        Ok (map (csc_of run) (combine spends (spend_tuples iter))).
+Proof. exact coinspends_with_conditions_correct. Qed.
+
+(* non-vacuity of the three: toy oracle (satisfies both hypotheses), the generator with a spend-level extra, under
+   NO_UNKNOWN_CONDS: the rebuilt program differs from the original, is accepted with the same summary, and
+   SpendBundle::additions lists the one created coin *)
+Theorem C09_rebuild_example :
+  exists run H, run_exact_hyp run /\ run_quote_hyp run /\
+  exists vk sig K program refs max_cost gf b spends pairs cs program' s',
+    run_block_generator2 run vk sig H K program refs max_cost gf = Ok (b, spends, pairs) /\
+    get_coinspends_for_trusted_block run H program refs gf = Ok cs /\
+    solution_generator (rev cs) = Some program' /\ program' <> program /\
+    run_block_generator2 run vk sig H K program' [] max_cost gf = Ok s' /\
+    neutral s' = neutral (b, spends, pairs) /\
+    spend_bundle_additions run H cs = Ok (map fst (concat (map expected_additions spends))) /\
+    length (concat (map expected_additions spends)) = 1%nat.
+Proof. exact rebuild_example. Qed.
